@@ -143,6 +143,15 @@ func TestSim(t *testing.T) {
 			writeJSONLine(out, res)
 		}
 		writeJSONLine(out, map[string]any{"done": true})
+	case "one":
+		world := os.Getenv("SIM_WORLD")
+		mk := worldFactory(world, params)
+		seed, _ := strconv.ParseUint(os.Getenv("SIM_RUNSEED"), 10, 64)
+		c := simrt.NewChoices(seed)
+		res := RunOne(t, mk, c, Options{World: world, Mode: os.Getenv("SIM_WMODE"), Params: params, KeepTrace: os.Getenv("SIM_TRACE") != ""})
+		res.Seed = seed
+		res.Choices = c.Rec
+		writeJSONLine(out, res)
 	case "replay", "shrink":
 		data, err := os.ReadFile(os.Getenv("SIM_REPLAY"))
 		if err != nil {
